@@ -179,6 +179,10 @@ entry:
 	// In the inlined case, the line info is the innermost inlined function call.
 	inlined := len(inlinedRoutines) != 0
 	prefix := fmt.Sprintf("%#x: ", instructionOffset)
+	if le.File == nil {
+		// The line table names no file for this row (e.g. a compilation unit without file entries).
+		return
+	}
 	ret = append(ret, formatLine(prefix, le.File.Name, int64(le.Line), int64(le.Column), inlined))
 
 	if inlined {
@@ -191,7 +195,7 @@ entry:
 			fileIndex, ok := inlined.Val(dwarf.AttrCallFile).(int64)
 			if !ok {
 				return
-			} else if fileIndex >= int64(len(files)) {
+			} else if fileIndex < 0 || fileIndex >= int64(len(files)) || files[fileIndex] == nil {
 				// This in theory shouldn't happen according to the spec, but guard against ill-formed DWARF info.
 				return
 			}
